@@ -32,4 +32,3 @@ func main() {
 	r.Require("rollback-removed-coinbase-chain-txs", 5)
 	os.Exit(r.Finish())
 }
-
